@@ -537,10 +537,10 @@ func qGenQuery(r *rng) []string {
 	}
 	if r.intn(3) == 0 {
 		add(kw("LIMIT"))
-		add(qPick(r, []string{"1", "10", "@n", "0x1F", "a", "1.5", "CAST(1 AS INT64)"}))
+		add(qPick(r, []string{"1", "10", "@n", "0x1F", "a", "1.5", "CAST(1 AS INT64)", "08", "0190", "007", "0XaB", "9223372036854775808"}))
 		if r.intn(2) == 0 {
 			add(qPick(r, []string{"OFFSET", "offset", "Offset", "`OFFSET`"}))
-			add(qPick(r, []string{"2", "@m", "b", "-1"}))
+			add(qPick(r, []string{"2", "@m", "b", "-1", "09", "00", "0x0"}))
 		}
 	}
 	return ts
@@ -565,7 +565,7 @@ var queryCases = []string{
 	"SELECT a ORDER BY b", "SELECT a ORDER BY b ASC, c DESC, d", "SELECT a ORDER b", "SELECT a ORDER BY", "SELECT a ORDER BY b COLLATE 'x'",
 	"SELECT a ORDER BY b ASC DESC", "SELECT a ORDER BY b LIMIT 1", "SELECT a LIMIT 1 ORDER BY b", "SELECT a LIMIT 1", "SELECT a LIMIT @p",
 	"SELECT a LIMIT 1 OFFSET 2", "SELECT a LIMIT 1 offset @q", "SELECT a LIMIT 1 `offset` 2", "SELECT a LIMIT 1 OFFSET", "SELECT a LIMIT b",
-	"SELECT a LIMIT CAST(1 AS INT64)", "SELECT a LIMIT 1 OFFSET CAST(@p AS INT64)", "SELECT a LIMIT -1", "SELECT a LIMIT 1.5", "SELECT a LIMIT 0x10 OFFSET 0X2",
+	"SELECT a LIMIT CAST(1 AS INT64)", "SELECT a LIMIT 1 OFFSET CAST(@p AS INT64)", "SELECT a LIMIT -1", "SELECT a LIMIT 1.5", "SELECT a LIMIT 0x10 OFFSET 0X2", "SELECT a LIMIT 08", "SELECT a LIMIT 10 OFFSET 09", "SELECT a LIMIT 0019 OFFSET 00",
 	"SELECT a offset", "SELECT a limit", "SELECT a FROM offset offset", "SELECT offset FROM t LIMIT 1 OFFSET 1", "SELECT a FROM t offset LIMIT 1",
 	"SELECT a FOR UPDATE", "SELECT a LIMIT 1 FOR UPDATE", "SELECT a |> WHERE b", "SELECT a UNION ALL SELECT b", "(SELECT a)", "FROM t", "WITH x AS (SELECT 1) SELECT 2",
 	"@{a=1} SELECT 1", "SELECT 1; SELECT 2", "SELECT 1;", "SELECT (SELECT 1)", "SELECT a IN (SELECT 1)", "SELECT EXISTS(SELECT 1)", "SELECT ARRAY(SELECT 1)",
